@@ -18,6 +18,8 @@ pub enum Obj {
     Thread(Tid),
     Sleep,
     Settle,
+    /// harness-only: waiting for every other thread to finish
+    AllDone,
 }
 
 #[derive(Clone, Copy, PartialEq, Eq, Debug)]
@@ -129,6 +131,8 @@ pub struct BlockedInfo {
 pub enum End {
     Complete,
     Deadlock,
+    /// thread 0 finished but some other (non-joined) threads can never run again
+    Leaked,
     StepLimit,
     ReplayDiverged,
 }
@@ -414,9 +418,16 @@ impl Sim {
             if fired {
                 continue;
             }
-            // nothing runnable, no timers
+            // nothing runnable, no timers: a thread waiting for all others learns they are stuck
+            if let Some(i) = st.threads.iter().position(|t| t.status == Status::Blocked(Obj::AllDone)) {
+                st.threads[i].status = Status::Runnable;
+                st.threads[i].wake = Wake::TimedOut;
+                continue;
+            }
             if st.threads.iter().all(|t| t.status == Status::Finished) {
                 self.end_run(st, End::Complete);
+            } else if st.threads[0].status == Status::Finished {
+                self.end_run(st, End::Leaked);
             } else {
                 self.end_run(st, End::Deadlock);
             }
@@ -631,6 +642,24 @@ pub fn settle() {
     block(Obj::Settle, None);
 }
 
+/// Harness-only: block until every other thread has finished (true) or none of them can ever
+/// run again (false).  Virtual time advances while waiting.
+pub fn wait_others() -> bool {
+    let Some(c) = ctx() else { return true };
+    point(Op::Join);
+    loop {
+        {
+            let st = c.sim.st.lock().unwrap();
+            if st.threads.iter().enumerate().all(|(i, t)| i == c.tid || t.status == Status::Finished) {
+                return true;
+            }
+        }
+        if block(Obj::AllDone, None) == Wake::TimedOut {
+            return false;
+        }
+    }
+}
+
 /// Harness-only: what every blocked thread is blocked on right now.
 pub fn blocked_snapshot() -> Vec<BlockedInfo> {
     let Some(c) = ctx() else { return vec![] };
@@ -692,7 +721,7 @@ pub(crate) fn exit_thread(panicked: bool) {
     c.sim.emit(&st, SeamEvent::Exit { tid: c.tid, panicked });
     let me = c.tid;
     for t in st.threads.iter_mut() {
-        if t.status == Status::Blocked(Obj::Thread(me)) {
+        if t.status == Status::Blocked(Obj::Thread(me)) || t.status == Status::Blocked(Obj::AllDone) {
             t.status = Status::Runnable;
             t.wake = Wake::Notified;
         }
